@@ -256,7 +256,7 @@ func (x *c19Ctx) randomCall(r *vlib.Rand, e gnet.Engine) {
 	}
 }
 
-func runC19Case(c cfg, seed uint64, stopKind string, keys map[string]struct{}) int64 {
+func runC19Case(c cfg, seed uint64, stopKind string, addFaults bool, keys map[string]struct{}) int64 {
 	r := vlib.NewRand(seed)
 	x := &c19Ctx{c: c, keys: keys}
 	// 1. a handle that was never started
@@ -290,7 +290,7 @@ func runC19Case(c cfg, seed uint64, stopKind string, keys map[string]struct{}) i
 	vsys.ResetLedger()
 	vsys.PlanClear()
 	defer vsys.PlanClear()
-	if vsys.Shimmed && seed%3 == 0 {
+	if vsys.Shimmed && addFaults {
 		// every third registration of an enrolled (dup'ed) descriptor fails: Register must then deliver an error
 		vsys.PlanSeed(seed)
 		vsys.PlanAdd(&vsys.Rule{Call: vsys.CEpollAdd, FD: -1, Class: "dup", Every: 3, Action: vsys.AErrno, Errno: unix.ENOMEM})
